@@ -1002,6 +1002,116 @@ def limiter_schedule_probe(ctx, rep: Report):
                                'signature': {'kind': 'hang', 'probe': 'limiter_schedule'}, 'replay': {'probe': 'limiter_schedule'}})
 
 
+def auth_race_probe(ctx, rep: Report):
+    """A plain (thread) backend whose transfers need an authorisation (requires_auth): the first authorised calls of a fresh session
+    come from several loader threads at once while the first authentication takes its time.  Every thread that arrives during it
+    waits for it; restore ends without an error and reproduces the files, whatever the arrival order."""
+    from replicat.repository import Repository
+    from replicat.utils import requires_auth
+    from harness.memstore import MemBackend
+
+    class AuthMem(MemBackend):
+        def __init__(self, objects):
+            super().__init__()
+            self.objects = objects
+            self.auths = 0
+
+        def authenticate(self):
+            time.sleep(0.25)
+            self.auths += 1
+            self._token = 'granted'
+
+        @requires_auth
+        def download_stream(self, name, stream, chunk_size=128_000):
+            if getattr(self, '_token', None) is None:
+                raise RuntimeError('transfer issued without an authorisation')
+            time.sleep(0.002 * (hash(name) % 7))
+            return super().download_stream(name, stream, chunk_size)
+
+        @requires_auth
+        def upload_stream(self, name, stream, length, chunk_size=128_000):
+            if getattr(self, '_token', None) is None:
+                raise RuntimeError('transfer issued without an authorisation')
+            return super().upload_stream(name, stream, length, chunk_size)
+
+    for N in (4, 2, 8):
+        wd = ctx.scratch / f'c09-auth-{N}'
+        (wd / 'src').mkdir(parents=True)
+        data = ctx.rng.randbytes(64 * 40)
+        (wd / 'src' / 'f').write_bytes(data)
+        objects = {}
+        out = {}
+
+        async def go():
+            r = Repository(AuthMem(objects), concurrent=N, quiet=True, cache_directory=None)
+            await r.init(settings={'encryption': None, 'chunking': {'min_length': 64, 'max_length': 64}, 'hashing': {'name': 'blake2b', 'length': 16}})
+            await asyncio.wait_for(r.snapshot(paths=[wd / 'src']), 60)
+            be2 = AuthMem(objects)
+            r2 = Repository(be2, concurrent=N, quiet=True, cache_directory=None)
+            await r2.unlock()
+            (wd / 'out').mkdir()
+            await asyncio.wait_for(r2.restore(path=wd / 'out'), 60)
+            t = Path(wd / 'out', *Path(str((wd / 'src' / 'f').resolve())).parts[1:])
+            out['restored'] = t.is_file() and t.read_bytes() == data
+            out['auths'] = be2.auths
+        try:
+            with contextlib.redirect_stdout(io.StringIO()), contextlib.redirect_stderr(io.StringIO()):
+                asyncio.run(go())
+        except Exception as e:
+            out['error'] = f'{type(e).__name__}: {str(e)[:100]}'
+        rep.case(('auth-race', N), nontrivial=True)
+        rep.count('auth_race_probe')
+        if out.get('error') or not out.get('restored'):
+            rep.violations.append({'what': f'snapshot + restore (N={N}) over a thread backend whose first authentication takes 0.25 s while {N} transfer threads arrive: '
+                                           f'{out.get("error") or "restored bytes differ"} (a sequential run succeeds)',
+                                   'signature': {'kind': 'spurious_error', 'probe': 'auth_race'}, 'replay': {'probe': 'auth_race'}})
+        shutil.rmtree(wd, ignore_errors=True)
+
+
+def cancel_probe(ctx, rep: Report):
+    """A snapshot that is cancelled (Ctrl-C under asyncio.run, a wait_for time-out around the command, a cancelled coroutine-backend
+    call) while its producer still has more chunks than the pipeline holds must END: the producer thread is told to stop on every way
+    out of the upload phase, whatever the exception is."""
+    from replicat.repository import Repository
+    from harness.memstore import MemBackend
+    for how in ('cancel', 'wait_for'):
+        wd = ctx.scratch / f'c09-cancel-{how}'
+        (wd / 'src').mkdir(parents=True)
+        (wd / 'src' / 'f').write_bytes(ctx.rng.randbytes(64 * 200))
+        be = MemBackend(random.Random(1), 0.02)
+        out = {}
+
+        async def go():
+            r = Repository(be, concurrent=1, quiet=True, cache_directory=None)
+            await r.init(settings={'encryption': None, 'chunking': {'min_length': 64, 'max_length': 64}, 'hashing': {'name': 'blake2b', 'length': 16}})
+            if how == 'cancel':
+                t = asyncio.ensure_future(r.snapshot(paths=[wd / 'src']))
+                while len([c for c in be.calls if c[0] == 'upload_stream']) < 3 and not t.done():
+                    await asyncio.sleep(0.005)
+                t.cancel()
+            else:
+                t = asyncio.ensure_future(asyncio.wait_for(r.snapshot(paths=[wd / 'src']), 0.4))
+            done, pending = await asyncio.wait([t], timeout=10)
+            out['ended'] = not pending
+            if pending:
+                t.cancel()
+                await asyncio.wait([t], timeout=2)
+            elif not t.cancelled() and t.exception() is None:
+                out['completed'] = True
+        try:
+            with contextlib.redirect_stdout(io.StringIO()), contextlib.redirect_stderr(io.StringIO()):
+                asyncio.run(go())
+        except Exception as e:
+            out['error'] = f'{type(e).__name__}: {str(e)[:100]}'
+        rep.case(('cancel', how), nontrivial=not out.get('completed'))
+        rep.count('cancel_probe')
+        if not out.get('ended', True):
+            rep.violations.append({'what': f'a snapshot that is cancelled ({"task.cancel()" if how == "cancel" else "wait_for time-out"}) while its producer has more chunks than the '
+                                           'pipeline holds does not end within 10 s: the producer thread was never told to stop',
+                                   'signature': {'kind': 'hang', 'probe': 'cancel'}, 'replay': {'probe': 'cancel'}})
+        shutil.rmtree(wd, ignore_errors=True)
+
+
 def queue_race_probe(ctx, rep: Report):
     """Forced timing around the worker's exit test: the producer's first put waits until a worker has looked at the
     (still empty) queue, and that look takes long enough for the producer to queue everything and return.  A worker may
@@ -1189,6 +1299,8 @@ def _run(ctx, n_random, n_forced, n_perm, rep):
     queue_race_probe(ctx, rep)
     lost_wakeup_probe(ctx, rep)
     limiter_schedule_probe(ctx, rep)
+    cancel_probe(ctx, rep)
+    auth_race_probe(ctx, rep)
     validate_slot_traces(rep)
     validate_pipe_traces(rep)
     validate_fin_traces(rep)
@@ -1219,6 +1331,11 @@ def replay(ctx, obj):
         return rc
     rep = Report(rule=RULE)
     case = obj.get('replay') or {}
+    if case.get('probe') in ('cancel', 'auth_race'):
+        (cancel_probe if case['probe'] == 'cancel' else auth_race_probe)(ctx, rep)
+        for v in rep.violations:
+            print('VIOLATION-REPRODUCED', v['what'])
+        return 1 if rep.violations else 0
     if case.get('probe') == 'limiter_schedule':
         limiter_schedule_probe(ctx, rep)
         for v in rep.violations:
